@@ -264,7 +264,7 @@ func Run(args []string) {
 			garbage = true
 		}
 	}
-	n := vh.Pick(3000, 60000)
+	n := vh.Pick(5000, 60000)
 	workers := runtime.GOMAXPROCS(0)
 	if child {
 		rs, to := runAll(n, workers, withKnown, false, garbage)
